@@ -27,6 +27,8 @@ type Event struct {
 	Seq    int
 	Pos    token.Pos
 	InLoop bool
+	Loops  []int // identities of the (summarised) loops the call sits in, innermost last
+	LoopID int   // <loop-continues>: identity of the loop that continues
 	St     *State // heap at the time of the call (only kept for functions with effect clauses)
 }
 
@@ -119,6 +121,9 @@ type Engine struct {
 	ctxParentArgs []Val
 	utcTimes      map[string]bool
 	loopIdxSyms   []string // the (havocked) hidden index of every summarised range loop
+	loopStack     []int
+	nLoopIDs      int
+	approxLoops   []string // loops without invariant that were summarised by forgetting what they write (non-effect mode): failures need a replayed counterexample
 	snapOrigin    map[*Cell]string
 	mapUpd        map[*ssa.Function]map[string]bool
 	ipText       map[*Arr]string   // net.IP values: the text they were parsed from
@@ -787,6 +792,7 @@ type loopInfo struct {
 	head   *ssa.BasicBlock
 	blocks map[*ssa.BasicBlock]bool
 	ord    int
+	id     int // identity of this dynamic loop in the trace (0: not yet assigned)
 }
 
 func findLoops(fn *ssa.Function) map[*ssa.BasicBlock]*loopInfo {
@@ -835,14 +841,39 @@ func hasLoops(fn *ssa.Function) bool {
 	return false
 }
 
-// rpo returns the blocks in reverse post-order of the CFG without back edges.
+// rpo returns the blocks in reverse post-order of the CFG without back edges, in the order a reader meets them: the
+// body of a loop before what follows the loop, the first branch of a conditional before the second (successors are
+// visited last-first, and a successor that leaves the innermost loop of the block first of all). The order of the
+// recorded calls - what `before` and `after` mean in effect clauses - is the order in which blocks are executed.
 func rpo(fn *ssa.Function) []*ssa.BasicBlock {
+	var loops map[*ssa.BasicBlock]*loopInfo
+	if hasLoops(fn) {
+		loops = findLoops(fn)
+	}
+	innermost := func(b *ssa.BasicBlock) *loopInfo {
+		var best *loopInfo
+		for _, li := range loops {
+			if li.blocks[b] && (best == nil || len(li.blocks) < len(best.blocks)) {
+				best = li
+			}
+		}
+		return best
+	}
 	seen := map[*ssa.BasicBlock]bool{}
 	var post []*ssa.BasicBlock
 	var dfs func(b *ssa.BasicBlock)
 	dfs = func(b *ssa.BasicBlock) {
 		seen[b] = true
-		for _, s := range b.Succs {
+		succs := append([]*ssa.BasicBlock(nil), b.Succs...)
+		// visit order: last successor first ...
+		for i, j := 0, len(succs)-1; i < j; i, j = i+1, j-1 {
+			succs[i], succs[j] = succs[j], succs[i]
+		}
+		// ... but successors that leave the innermost loop of b before those that stay in it
+		if li := innermost(b); li != nil {
+			sort.SliceStable(succs, func(i, j int) bool { return !li.blocks[succs[i]] && li.blocks[succs[j]] })
+		}
+		for _, s := range succs {
 			if !seen[s] && !s.Dominates(b) {
 				dfs(s)
 			}
@@ -870,6 +901,7 @@ type frame struct {
 	env    map[ssa.Value]Val
 	allocs map[*Cell]*ssa.BasicBlock
 	named  map[string]*Cell
+	namedAll map[string][]*Cell // every cell allocated under a name, in allocation order (shadowed / re-declared locals)
 	defers []deferRec
 	invs   map[*ssa.BasicBlock]func(*State) string
 	top    bool
@@ -1431,7 +1463,7 @@ func (e *Engine) execFunc(fn *ssa.Function, args []Val, bind []Val, st0 *State, 
 	if fn.Recover != nil {
 		e.note("recover block of " + fn.Name() + " not modelled (panics are obligations, not control flow)")
 	}
-	f := &frame{fn: fn, env: map[ssa.Value]Val{}, named: map[string]*Cell{}, invs: map[*ssa.BasicBlock]func(*State) string{}, allocs: map[*Cell]*ssa.BasicBlock{}, top: top}
+	f := &frame{fn: fn, env: map[ssa.Value]Val{}, named: map[string]*Cell{}, namedAll: map[string][]*Cell{}, invs: map[*ssa.BasicBlock]func(*State) string{}, allocs: map[*Cell]*ssa.BasicBlock{}, top: top}
 	if len(args) != len(fn.Params) {
 		panic(unsupported{fmt.Sprintf("arity mismatch calling %s: %d args for %d params", fn.Name(), len(args), len(fn.Params))})
 	}
@@ -1456,7 +1488,13 @@ func (e *Engine) execFunc(fn *ssa.Function, args []Val, bind []Val, st0 *State, 
 	in := map[*ssa.BasicBlock][]guarded{fn.Blocks[0]: {{g: reach0, s: st0}}}
 	var rets []retInfo
 	order := rpo(fn)
-	for _, b := range order {
+	// Unrolling: a range loop without invariant over a slice whose length is a literal (a table written in the
+	// function) is executed copy by copy in non-effect mode: a complete treatment, no bound involved.
+	var curUnroll *ssa.BasicBlock
+	var backIns []guarded
+	noUnroll := map[*ssa.BasicBlock]bool{}
+	var process func(b *ssa.BasicBlock) int
+	process = func(b *ssa.BasicBlock) int {
 		ins := in[b]
 		var gs []string
 		for _, x := range ins {
@@ -1464,20 +1502,35 @@ func (e *Engine) execFunc(fn *ssa.Function, args []Val, bind []Val, st0 *State, 
 		}
 		reach := or(gs...)
 		if reach == "false" {
-			continue
+			return -1
 		}
 		if len(ins) > 1 {
 			reach = e.share(reach, "Bool")
 		}
 		st := e.mergeAt(b, ins)
-		if li := loops[b]; li != nil {
+		if li := loops[b]; li != nil && curUnroll != b {
+			if n, ok := e.constTrip(f, st, li, loops, top); ok && !noUnroll[b] {
+				return n
+			}
 			e.enterLoop(f, st, li, reach, top)
 		}
 		inLoopBlock := false
+		nPushed := 0
+		var around []*loopInfo
 		for _, li := range loops {
 			if li.blocks[b] {
-				inLoopBlock = true
+				around = append(around, li)
 			}
+		}
+		sort.Slice(around, func(i, j int) bool { return len(around[i].blocks) > len(around[j].blocks) }) // outermost first
+		for _, li := range around {
+			inLoopBlock = true
+			if li.id == 0 {
+				e.nLoopIDs++
+				li.id = e.nLoopIDs
+			}
+			e.loopStack = append(e.loopStack, li.id)
+			nPushed++
 		}
 		if inLoopBlock {
 			e.inLoop++
@@ -1508,6 +1561,11 @@ func (e *Engine) execFunc(fn *ssa.Function, args []Val, bind []Val, st0 *State, 
 					rs = append(rs, e.get(f, st, r))
 				}
 				rets = append(rets, retInfo{cur, rs, st})
+				if f.top && e.pure == 0 && e.fc != nil && e.fc.usesReturns() {
+					// pseudo-event: the function under contract returns here
+					e.curState = st
+					e.record(Event{Guard: cur, Callee: "<returns>", Res: rs, Pos: x.Pos()})
+				}
 			case *ssa.Panic:
 				if e.cfg.NoPanic {
 					e.oblige("nopanic", "explicit-panic", cur, "false", x.Pos())
@@ -1557,18 +1615,27 @@ func (e *Engine) execFunc(fn *ssa.Function, args []Val, bind []Val, st0 *State, 
 		if inLoopBlock {
 			e.inLoop--
 		}
+		e.loopStack = e.loopStack[:len(e.loopStack)-nPushed]
 		if aborted {
-			continue
+			return -1
 		}
 		for _, ne := range nextEdges {
 			if ne.g == "false" {
+				continue
+			}
+			if ne.to == curUnroll && ne.to.Dominates(b) { // back edge of the loop being unrolled: input of the next copy
+				backIns = append(backIns, guarded{g: e.share(ne.g, "Bool"), s: st, from: b})
 				continue
 			}
 			if ne.to.Dominates(b) { // back edge
 				if f.top && e.pure == 0 {
 					// pseudo-event: the loop goes on to its next iteration (effect clauses can forbid that after a call)
 					e.curState = st
-					e.record(Event{Guard: ne.g, Callee: "<loop-continues>", Pos: b.Instrs[len(b.Instrs)-1].Pos()})
+					if li := loops[ne.to]; li != nil && li.id == 0 {
+						e.nLoopIDs++
+						li.id = e.nLoopIDs
+					}
+					e.record(Event{Guard: ne.g, Callee: "<loop-continues>", LoopID: loops[ne.to].id, Pos: b.Instrs[len(b.Instrs)-1].Pos()})
 				}
 				if ic, ok := f.invs[ne.to]; ok {
 					e.oblige("inv-preserved", fmt.Sprintf("loop%d", loops[ne.to].ord), ne.g, ic(st), b.Instrs[len(b.Instrs)-1].Pos())
@@ -1576,6 +1643,48 @@ func (e *Engine) execFunc(fn *ssa.Function, args []Val, bind []Val, st0 *State, 
 				continue
 			}
 			in[ne.to] = append(in[ne.to], guarded{g: e.share(ne.g, "Bool"), s: st, from: b})
+		}
+		return -1
+	}
+	done := map[*ssa.BasicBlock]bool{}
+	for _, b := range order {
+		if done[b] {
+			continue
+		}
+		n := process(b)
+		if n < 0 {
+			continue
+		}
+		// b is the head of a loop with exactly n iterations
+		li := loops[b]
+		var region []*ssa.BasicBlock
+		for _, rb := range order {
+			if li.blocks[rb] || dominatedByBody(li, rb) {
+				region = append(region, rb)
+			}
+		}
+		e.note(fmt.Sprintf("loop %d of %s has no invariant and ranges over a table of %d elements: unrolled completely", li.ord, fn.Name(), n))
+		curUnroll = b
+		for k := 0; k <= n; k++ {
+			backIns = nil
+			for _, rb := range region {
+				if process(rb) >= 0 {
+					panic(unsupported{"nested constant-length loop inside an unrolled loop"})
+				}
+			}
+			for _, rb := range region {
+				delete(in, rb)
+			}
+			if len(backIns) == 0 {
+				break
+			}
+			in[b] = backIns
+		}
+		// after n+1 evaluations of the head the hidden index has reached the literal length: no state continues
+		delete(in, b)
+		curUnroll = nil
+		for _, rb := range region {
+			done[rb] = true
 		}
 	}
 	if len(rets) == 0 {
@@ -1598,6 +1707,68 @@ func (e *Engine) execFunc(fn *ssa.Function, args []Val, bind []Val, st0 *State, 
 		vals = nv
 	}
 	return vals, out, e.share(or(rg...), "Bool")
+}
+
+// dominatedByBody: b lies outside the loop but is reached only through a body block of it (an early return, the
+// block after a break out of an inner construct): its temporaries belong to one iteration.
+func dominatedByBody(li *loopInfo, b *ssa.BasicBlock) bool {
+	if li.blocks[b] {
+		return false
+	}
+	for x := range li.blocks {
+		if x != li.head && x.Dominates(b) {
+			return true
+		}
+	}
+	return false
+}
+
+// constTrip recognises a range loop over a slice or array whose length is a literal at the loop head, for loops
+// without invariant of functions that are not in effect mode (there such loops are summarised).
+func (e *Engine) constTrip(f *frame, st *State, li *loopInfo, loops map[*ssa.BasicBlock]*loopInfo, top bool) (int, bool) {
+	if e.cfg.Effects || e.pure > 0 {
+		return 0, false
+	}
+	if top && e.fc != nil && len(e.fc.invFuncs(li.ord)) > 0 {
+		return 0, false
+	}
+	for h, other := range loops { // innermost loops only
+		if h != li.head && li.blocks[h] {
+			_ = other
+			return 0, false
+		}
+	}
+	hasIdx := false
+	for _, ins := range li.head.Instrs {
+		if s, ok := ins.(*ssa.Store); ok {
+			if al, ok := s.Addr.(*ssa.Alloc); ok && al.Comment == "rangeindex" {
+				hasIdx = true
+			}
+		}
+	}
+	if !hasIdx {
+		return 0, false
+	}
+	for _, ins := range li.head.Instrs {
+		if b, ok := ins.(*ssa.BinOp); ok && b.Op == token.LSS {
+			if _, isConst := b.Y.(*ssa.Const); isConst {
+				if iv, ok := e.get(f, st, b.Y).(IntV); ok {
+					if n, ok := litInt(iv.T); ok && n >= 0 && n <= 16 {
+						return int(n), true
+					}
+				}
+				return 0, false
+			}
+			if v, ok := f.env[b.Y]; ok {
+				if iv, ok := v.(IntV); ok {
+					if n, ok := litInt(iv.T); ok && n >= 0 && n <= 16 {
+						return int(n), true
+					}
+				}
+			}
+		}
+	}
+	return 0, false
 }
 
 // rootOf strips field and index selections from an address expression.
@@ -1627,7 +1798,11 @@ func (e *Engine) enterLoop(f *frame, st *State, li *loopInfo, reach string, top 
 		}
 	}
 	if len(invs) == 0 && !e.cfg.Effects {
-		panic(unsupported{fmt.Sprintf("loop %d of %s has no invariant", li.ord, fn.Name())})
+		// No invariant: the loop is summarised by forgetting everything its body may write. That is an
+		// over-approximation, so what is discharged stays discharged; a failed obligation is believed only when its
+		// counterexample replays on the real code (see decide).
+		e.approxLoops = append(e.approxLoops, fmt.Sprintf("loop %d of %s has no invariant", li.ord, fn.Name()))
+		e.note(fmt.Sprintf("loop %d of %s has no invariant: summarised by forgetting what it writes; failures after it need a replayed counterexample", li.ord, fn.Name()))
 	}
 	evalInv := func(s *State) string {
 		var conj []string
